@@ -435,13 +435,18 @@ def r01_8(ck, F):
     ck.expect(n >= 6, "frame-flags#sites", f"{n} sites", f"only {n} flag hand-over sites found in chmux/receiver.rs", None)
 
 
+def r01_9(ck, F):
+    import cancel
+    cancel.frames_rule(ck, F, "R01.9")
+
+
 def r01_7(ck, F):
     import cancel
     cancel.rule(ck, F, "R01.7", only=("chmux::receiver::", "chmux::sender::", "chmux::credit::"), floor=4)
 
 
 def run(ck, F):
-    for r in (r01_1, r01_2, r01_3, r01_4, r01_5, r01_5b, r01_6, r01_7, r01_8):
+    for r in (r01_1, r01_2, r01_3, r01_4, r01_5, r01_5b, r01_6, r01_7, r01_8, r01_9):
         ck.run_rule(r)
     import c02
     ck.run_rule(c02.r02_1b)    # no surplus (empty) frame is emitted for a message: every frame of a message carries payload or is the single frame of an empty message
